@@ -229,6 +229,51 @@ def replay_on_model(chk, runs, label):
                           '%s: replaying the observed operations on the interleaving model gives wire %s queue %s; the real connection produced wire %s queue %s' % (run.progs, mfs, mq, tags, run.queue_left))
 
 
+def bulk(chk):
+    """Long queues: everything queued before a flushing disconnect() reaches the wire, once, in order, however long the queue
+    is (the networking thread writes in batches of 300, disconnect() has no such limit); likewise when the networking thread
+    drains the queue by itself."""
+    from minecraft.networking.connection import Connection
+    Raw = make_packets()
+    for n in (1, 299, 300, 301, 450, 905):
+        for mode in ('disconnect', 'thread', 'thread+disconnect'):
+            net = sim.Net([sim.Server([], end='idle')], idle_limit=8).install()
+            try:
+                conn = Connection('localhost', 25565, username='user', allowed_versions={757}, handle_exception=False)
+                conn.connect()
+                for i in range(n):
+                    p = Raw()
+                    p.id = 0x30
+                    p.data = bytes([i >> 8, i & 0xff]) + b'x' * (i % 7)
+                    conn.write_packet(p)
+                if mode != 'disconnect':
+                    net.run_threads(conn, max_threads=1)
+                if mode == 'thread+disconnect':
+                    for i in range(n, n + 350):
+                        p = Raw()
+                        p.id = 0x30
+                        p.data = bytes([i >> 8, i & 0xff])
+                        conn.write_packet(p)
+                if mode != 'thread':
+                    conn.disconnect()
+            except Exception as e:
+                chk.violation('bulk', 'bulk:%d:%s:exc' % (n, mode), {'case': {'queued': n, 'mode': mode}, 'observed': exn_name(e)}, '%d queued packets, %s: %s raised' % (n, mode, exn_name(e)))
+                continue
+            finally:
+                net.uninstall()
+            total = n + (350 if mode == 'thread+disconnect' else 0)
+            chk.count('bulk', [n, mode], n > 1)
+            try:
+                frames = proto.parse_frames(b''.join(net.servers[0].sends))
+                got = [(b[0] << 8) | b[1] for pid, b in frames if pid == 0x30]
+            except Exception as e:
+                got = 'unparseable (%s)' % exn_name(e)
+            if got != list(range(total)):
+                miss = [i for i in range(total) if not isinstance(got, list) or i not in got][:5]
+                chk.violation('bulk', 'bulk:%d:%s' % (n, mode), {'case': {'queued': total, 'mode': mode}, 'observed': {'written': len(got) if isinstance(got, list) else got, 'first_missing': miss}},
+                              '%d packets queued, then %s: %s of them are on the wire (first missing: %s)' % (total, mode, len(got) if isinstance(got, list) else got, miss))
+
+
 def random_policy(rng, sticky=0.6):
     def pol(k, runnable, default):
         if rng.random() < sticky:
@@ -303,6 +348,7 @@ def run(chk):
         if tags is not None:
             good.append((run_, tags))
     replay_on_model(chk, good, 'replay')
+    bulk(chk)
     if good:
         chk.sample('random', {'programs': good[-1][0].progs, 'wire': good[-1][1], 'preemptions': good[-1][0].preempt}, k=1)
     chk.assumptions += ['PARTIAL: the granularity of atomicity is assumed - deque.append / popleft and one socket.send are atomic, a blocking send transmits all its bytes; real OS preemption is represented by the scheduling points only',
